@@ -13,8 +13,21 @@ def main():
         doc = json.load(f)
     hm = importlib.import_module('harness.%s' % doc['property'])
     w = from_json(doc['witness'])
+    import signal
+
+    class _Hang(BaseException):
+        pass
+
+    def _alarm(signum, frame):
+        raise _Hang()
+    signal.signal(signal.SIGALRM, _alarm)
+    signal.alarm(int(getattr(hm, 'REPLAY_TIMEOUT', 20)))
     try:
         r = hm.replay(doc['obligation'], doc.get('label'), w)
+        signal.alarm(0)
+    except _Hang:
+        r = {'violated': bool(getattr(hm, 'HANG_IS_VIOLATION', False)), 'signature': 'nontermination',
+             'detail': 'the real code did not terminate within the replay time limit on this input'}
     except Exception:
         r = {'violated': False, 'error': traceback.format_exc()[-1500:]}
     assert 'pydiffx' not in sys.modules or not hasattr(sys.modules['pydiffx'], '_sx_call_')
